@@ -22,6 +22,7 @@ struct_defs:
     SAMPLE:
         fields:
             t: double
+            _rsvd: double
             v: float[N_A]
             flags: signed char
             k: unsigned short
@@ -76,7 +77,7 @@ try:
             prog.append(f'printf("size {s} %zu\\n", sizeof({cname}));')
             pycls = getattr(mod, "MDF_" + s, None) or getattr(mod, s)
             for fname, _ in pycls._fields_:
-                fn = fname.lstrip("_")
+                fn = fname[1:]
                 prog.append(f'printf("off {s}.{fn} %zu\\n", offsetof({cname}, {fn}));')
         prog.append('return 0;}')
         cfile = os.path.join(tmp, "probe.c")
@@ -130,7 +131,7 @@ try:
             bad.append(f"version hash of {mname} differs between outputs: " + str({k: hex(v) for k, v in hs.items()}))
     for s, cname in structs.items():
         pycls = getattr(mod, "MDF_" + s, None) or getattr(mod, s)
-        pyfields = [fn.lstrip("_") for fn, _ in pycls._fields_]
+        pyfields = [fn[1:] for fn, _ in pycls._fields_]
         top = "MDF" if cname.startswith("MDF_") else "SDF"
         m = re.search(rf"RTMA\.{top}\.{s} = \(\) => \{{\s*return \{{(.*?)\n  \}}", js, re.S)
         if m:
@@ -142,7 +143,7 @@ try:
             if cvals[("size", s)] != ctypes.sizeof(pycls):
                 bad.append(f"sizeof({cname}) is {cvals[('size', s)]} in C and {ctypes.sizeof(pycls)} in Python")
             for fname, _ in pycls._fields_:
-                fn = fname.lstrip("_")
+                fn = fname[1:]
                 po = getattr(pycls, fname).offset
                 if cvals.get(("off", f"{s}.{fn}")) != po:
                     bad.append(f"offsetof({cname}, {fn}) is {cvals.get(('off', f'{s}.{fn}'))} in C and {po} in Python")
